@@ -50,9 +50,10 @@ ASSUMPTIONS = [
     "call that performs it; after a detected mutation the worker rebuilds the state from scratch)",
     "the harness's own to_dense() of every live operator after each step is itself a public call: a change of "
     "flatten() leaves across it is reported under action 'to_dense'",
-    "in the persistence replay the registry is pinned by constructing exp(A, Lanczos(start_vector=v)) / "
-    "exp(A, Arnoldi(start_vector=v)) first, the history in which the mutation of LanczosUnary.kwargs is "
-    "observable through flatten()",
+    "in the persistence replay every process first constructs I[idx, idx], exp(A, Lanczos(start_vector=v)) and "
+    "exp(A, Arnoldi(start_vector=v)): the registry (which is history dependent, see the known findings) is then the "
+    "same in all worker processes whose recordings are merged, and it is the history in which index arrays and "
+    "start vectors are leaves, so that the mutation of LanczosUnary.kwargs is observable through flatten()",
     "exceptions raised by an operation are treated as its (repeatable) result; dtype moves are not exercised "
     "(LinearOperator.to documents them as unsupported), device is None",
     "MC_Persist has no mechanism model: TLC enumerates the well-typed sequences and validates recordings "
@@ -585,7 +586,7 @@ def run_oneshot(jobs, width=16):
 # =================================================================================================
 #                               REGISTRY: model rendering, TLC, comparison
 # =================================================================================================
-def render_registry_model(X, names, max_len, pairs_only=False):
+def render_registry_model(X, names, max_len, known_bad=(), all_len=None, conflict=None):
     """Generated module RegistryModel from the extraction X, restricted to templates `names`."""
     insts = X["insts"]
     used_cls = set()
@@ -648,7 +649,11 @@ def render_registry_model(X, names, max_len, pairs_only=False):
            f"RG_Dyn0 == {fn_tla(dyn0, render=fn_tla)}",
            f"RG_Inst == {tla.to_tla(inst_tla)}",
            f"RG_Templates == {tla.to_tla(tmpl)}",
-           f"RG_MaxLen == {max_len}", "===="]
+           f"RG_MaxLen == {max_len}",
+           "RG_KnownBad == {" + ", ".join(json.dumps(x) for x in sorted(known_bad)) + "}",
+           f"RG_AllLen == {max_len if all_len is None else all_len}",
+           "RG_Conflict == {" + ", ".join(json.dumps(x) for x in sorted(conflict if conflict is not None else names)) + "}",
+           "===="]
     return "\n".join(txt) + "\n"
 
 
@@ -682,42 +687,50 @@ def registry_part(tier, wd, viol, cov, extra):
         X = pool.map([{"kind": "extract", "names": T_all}])[0]
         runs = []
         L = 3 if tier == "quick" else 4
-        plan = [("conflict", CONFLICT, L), ("all", T_all, 1 if tier == "quick" else 2)]
-        lines_by = {}
-        for tag, names, ml in plan:
-            res = tla.run_tlc("MC_Registry", "SPECIFICATION MCSpec\nINVARIANT Emit\n", wd,
-                              gen_files={"RegistryModel.tla": render_registry_model(X, names, ml)})
-            if res.error or res.violated:
-                raise tla.TLCError(f"MC_Registry({tag}) failed: {res.error or res.violated}\n" + res.out[-2500:])
-            lines = res.json_lines()
-            runs.append(res)
-            lines_by[tag] = lines
+        all_len = 1 if tier == "quick" else 2
+        plan = [("conflict", CONFLICT, L), ("all", T_all, all_len)]
+        res = tla.run_tlc("MC_Registry", "SPECIFICATION MCSpec\nINVARIANT Emit\n", wd,
+                          gen_files={"RegistryModel.tla": render_registry_model(X, T_all, L, all_len=all_len, conflict=CONFLICT)})
+        if res.error or res.violated:
+            raise tla.TLCError(f"MC_Registry failed: {res.error or res.violated}\n" + res.out[-2500:])
+        runs.append(res)
+        lines_by = {"all": res.json_lines()}
         # the orders to replay (deduplicated across the two runs)
         model = {}
         for tag in lines_by:
             for ln in lines_by[tag]:
                 model.setdefault(tuple(ln["h"]), ln)
         longest = max(len(o) for o in model)
-        if tier == "quick" and longest >= 3:
-            # all orders of length <= 2, every triple the model marks as genuinely order-3-sensitive (its prediction
-            # for the last template is none of the predictions after the sub-orders), and a seeded sample of the rest
+        full = 2 if tier == "quick" else 3      # orders up to this length are all replayed
+        if longest > full:
+            # of the longer orders: every one the model marks as genuinely sensitive to its whole history (the
+            # prediction for the last template is none of the predictions after the orders with one earlier template
+            # removed), and a seeded sample of the rest
             def sig(o):
                 pm = model[o]["pred"][-1]
                 return json.dumps([pm["leaves"], pm["reg"]], sort_keys=True)
-            sel = {o for o in model if len(o) <= 2}
+            sel = {o for o in model if len(o) <= full}
             rest = []
             for o in sorted(model):
-                if len(o) == 3:
-                    subs = {sig((o[2], )), sig((o[0], o[2])), sig((o[1], o[2]))}
+                if len(o) > full:
+                    subs = {sig(o[:k] + o[k + 1:]) for k in range(len(o) - 1)}
                     if sig(o) not in subs:
                         sel.add(o)
                     else:
                         rest.append(o)
             random.Random(common.seed()).shuffle(rest)
-            sel |= set(rest[:160])
+            sel |= set(rest[:160 if tier == "quick" else 2000])
         else:
             sel = set(model)
-        # an order that is a prefix of another selected order is observed as part of it
+        # model-level counterexamples one step beyond the explored orders (`bad`: templates for which the property
+        # fails if built next): one shortest witness order per template is replayed as well, so that every template
+        # TLC flags is confirmed (or refuted) on the code
+        look = {}
+        for o in sorted(model, key=lambda x: (len(x), x)):
+            for b in model[o]["bad"]:
+                if b not in look and o + (b, ) not in model:
+                    look[b] = o + (b, )
+        sel |= set(look.values())
         prefixes = {o[:k] for o in sel for k in range(1, len(o))}
         orders = sorted(o for o in sel if o not in prefixes)
         n_selected = len(sel)
@@ -731,7 +744,13 @@ def registry_part(tier, wd, viol, cov, extra):
         by_order = dict(zip(orders, obs))
         mism = [o for o, r in zip(sub_orders, plain) if json.dumps(r, sort_keys=True) != json.dumps(by_order[o], sort_keys=True)]
         if mism:
-            raise RuntimeError(f"zygote children and plain subprocesses disagree on {len(mism)} orders, e.g. {mism[0]}")
+            again = run_oneshot([{"kind": "order", "order": list(o)} for o in mism])
+            still = [(o, r) for o, r in zip(mism, again) if json.dumps(r, sort_keys=True) != json.dumps(by_order[o], sort_keys=True)]
+            if still:
+                o, r = still[0]
+                raise RuntimeError(f"zygote children and plain subprocesses disagree on {len(still)} orders, e.g. {o}:\n"
+                                   f"zygote: {json.dumps(by_order[o], sort_keys=True)[:1500]}\nplain : {json.dumps(r, sort_keys=True)[:1500]}")
+            extra.append(f"NOTE: {len(mism)} plain-subprocess observation(s) differed once and agreed on repetition: {mism[:2]}")
     finally:
         pool.close()
     # ---- comparison
@@ -751,12 +770,13 @@ def registry_part(tier, wd, viol, cov, extra):
     model_bad = set()
     steps_checked = 0
     for o in orders:
-        m, r = model[o], by_order[o]
+        r = by_order[o]
         for j, st in enumerate(r["steps"]):
             prefix = list(o[:j + 1])
             tname = st["t"]
-            pm = m["pred"][j]
-            if not pm["ok"]:
+            m = model.get(tuple(prefix))
+            pm = m["pred"][j] if m is not None else None
+            if pm is not None and not pm["ok"]:
                 model_bad.add((tuple(prefix[:-1]), tname))
             steps_checked += 1
             if "exc" in st:
@@ -792,6 +812,8 @@ def registry_part(tier, wd, viol, cov, extra):
                         dict(base_attrs, target=sb.get("target"), changed=sb.get("changed"), exc=sb.get("exc", "").split(":")[0]),
                         f"substituting leaf {sb['leaf']} (parameter {sb.get('target')}) changed {sb.get('changed')} {sb.get('exc', '')}")
             # model drift
+            if pm is None:
+                continue
             if _model_leaves(pm["leaves"]) != ol:
                 drift.setdefault("leaves", []).append((prefix, _model_leaves(pm["leaves"]), ol))
             mr = _model_reg(pm["reg"])
@@ -822,6 +844,19 @@ def registry_part(tier, wd, viol, cov, extra):
     if drift:
         for k, v in drift.items():
             extra.append(f"MODEL-DRIFT: registry model and code disagree on {k} in {len(v)} step(s), e.g. {v[0]}")
+    # the property as a TLC invariant, modulo the templates excused by committed known findings
+    new_v, seen_v, _ = common.triage(PROP, [v for v in viol if v.clause in ("leaves", "history_dependence")])
+    excused = {v.attrs["template"] for vs in seen_v.values() for v in vs} - {v.attrs.get("template") for v in new_v}
+    inv = tla.run_tlc("MC_Registry", "SPECIFICATION MCSpec\nINVARIANT HistoryIndependentModuloKnown\n", wd,
+                      gen_files={"RegistryModel.tla": render_registry_model(X, T_all, L, known_bad=excused, all_len=all_len,
+                                                                            conflict=CONFLICT)})
+    if inv.error:
+        raise tla.TLCError("MC_Registry (invariant run) failed: " + inv.error + "\n" + inv.out[-2000:])
+    runs.append(inv)
+    inv_verdict = "holds" if not inv.violated else "violated"
+    if inv.violated and not new_v:
+        extra.append("MODEL-DRIFT: TLC reports HistoryIndependentModuloKnown violated on the model although the replay "
+                     "found no new violation")
     n_model_bad = len(model_bad)
     bad_next = sorted({(tuple(ln['h']), b) for tag in lines_by for ln in lines_by[tag] for b in ln["bad"]})
     cov.update({
@@ -829,9 +864,10 @@ def registry_part(tier, wd, viol, cov, extra):
         "registry_orders_replayed_in_fresh_interpreters": len(orders), "registry_steps_observed": steps_checked,
         "registry_orders_model_checked": len(model), "registry_orders_covered_by_replay": n_selected,
         "registry_templates": len(T_all), "registry_conflict_templates": len(CONFLICT),
-        "registry_order_length": {t: ml for t, _, ml in plan},
+        "registry_order_length": {t: ml for t, _, ml in plan}, "registry_orders_all_replayed_up_to_length": full,
         "registry_model_counterexamples": n_model_bad + len(bad_next),
         "registry_model_drift": {k: len(v) for k, v in drift.items()},
+        "registry_invariant_modulo_known_findings": inv_verdict, "registry_templates_excused_by_known_findings": sorted(excused),
         "registry_plain_subprocess_crosschecks": len(sub_orders),
         "registry_instances_in_model": len(X["insts"]), "registry_classes_in_model": len(X["classes"]),
     })
@@ -860,7 +896,8 @@ PERSIST_ACTS = [
     ("inv_cg", "spd", "spd"), ("inv_gmres", "any", "same"), ("exp", "any", "same"), ("exp_lanczos", "spd", "spd"),
     ("add", "same", "and"), ("dot", "same", "gen"), ("kron", "kron", "kron"),
 ]
-PERSIST_POOL = [{"n": 3, "spd": True}, {"n": 3, "spd": True}, {"n": 4, "spd": False}, {"n": 3, "spd": False}]
+PERSIST_POOL = [{"n": 3, "spd": True}, {"n": 3, "spd": True}, {"n": 4, "spd": False}, {"n": 3, "spd": False},
+                {"n": 3, "spd": True}]      # PSD Dense, Diagonal, Kronecker, Permutation, Identity
 DIMS = (2, 3, 4, 6, 9, 12)
 
 
@@ -958,12 +995,35 @@ def _val_digest(x):
     return _hx(repr(x))
 
 
+_PINNED = []
+
+
+def persist_pin():
+    """The registry of a process depends on what it constructed first (the known first-assignment defects); the
+    persistence replay merges recordings of several worker processes, so every process starts from the same
+    registry: index-array slicing, Lanczos / Arnoldi with a start vector are constructed first (the histories in
+    which index arrays and start vectors ARE leaves)."""
+    if _PINNED:
+        return
+    np = _np()
+    import cola
+    from cola import ops
+    from cola.linalg.decompositions.decompositions import Arnoldi, Lanczos
+    I3 = ops.Identity((3, 3), np.float64)
+    _PINNED.append(I3[np.array([0, 1]), np.array([0, 1])])
+    with warnings.catch_warnings():
+        warnings.simplefilter("ignore")
+        _PINNED.append(cola.linalg.exp(cola.SelfAdjoint(ops.Dense(np.eye(3))), Lanczos(start_vector=np.ones(3), max_iters=2)))
+        _PINNED.append(cola.linalg.exp(ops.Dense(np.eye(3)), Arnoldi(start_vector=np.ones(3), max_iters=2)))
+
+
 class World:
     """Caller-owned arrays and the live operators of one replayed path."""
     def __init__(self):
         np = _np()
         import cola
         from cola import ops
+        persist_pin()
         rng = np.random.RandomState(1818)
         self.owned = {}
         for n in DIMS:
@@ -981,7 +1041,8 @@ class World:
         self.names = sorted(self.owned)
         o = self.owned
         self.ops = [cola.PSD(ops.Dense(o["S3"])), ops.Diagonal(o["d3"]),
-                    ops.Kronecker(ops.Dense(o["a2"]), ops.Dense(o["c2"])), ops.Permutation(o["perm3"], dtype=np.float64)]
+                    ops.Kronecker(ops.Dense(o["a2"]), ops.Dense(o["c2"])), ops.Permutation(o["perm3"], dtype=np.float64),
+                    ops.Identity((3, 3), np.float64)]
 
     def arr(self, name):
         return self.owned[name]
@@ -1042,14 +1103,20 @@ def _do(w, name, A):
     from cola.linalg.inverse.gmres import GMRES
     n = A.shape[0]
     b, B, x0, v0 = w.arr(f"b{n}"), w.arr(f"B{n}"), w.arr(f"x0{n}"), w.arr(f"v0{n}")
+    def g(f):     # sub-calls fail independently (an exception class is a repeatable result too)
+        try:
+            return f()
+        except Exception as e:  # noqa: BLE001
+            return "exc:" + type(e).__name__
+
     if name == "matmul":
-        return (A @ b, A @ B)
+        return (g(lambda: A @ b), g(lambda: A @ B))
     if name == "rmatmul":
-        return (b @ A, B.T @ A)
+        return (g(lambda: b @ A), g(lambda: B.T @ A))
     if name == "to_dense":
         return A.to_dense()
     if name == "diag_trace":
-        return (cola.linalg.diag(A, 0), cola.linalg.diag(A, 1), cola.linalg.trace(A))
+        return (g(lambda: cola.linalg.diag(A, 0)), g(lambda: cola.linalg.diag(A, 1)), g(lambda: cola.linalg.trace(A)))
     if name == "solve_cg":
         return cola.linalg.solve(A, b, CG(x0=x0, tol=1e-8, max_iters=40))
     if name == "solve_gmres":
@@ -1108,9 +1175,14 @@ def _persist_task(task):
             out.append(((), None, "init", ow, trip))
         prev = (ow, trip)
         p = ()
+        alive = True
         for k, (ai, x) in enumerate(path):
+            n_ops = len(w.ops)
             prev, p, _ = step(w, p, ai, x, prev, record and (record_prefix or k == len(path) - 1))
-        return w, prev, p
+            if PERSIST_ACTS[ai - 1][2] != "none" and len(w.ops) == n_ops:
+                alive = False
+                break
+        return w, prev, p, alive
 
     def step(w, path, ai, x, prev, record):
         """apply + snapshot (+ synthetic observe node).  Returns (new prev, new path, dirty)."""
@@ -1140,16 +1212,24 @@ def _persist_task(task):
             ai, x = key
             n_ops = len(w.ops)
             prev2, p2, dirty = step(w, path, ai, x, prev, True)
-            d2 = dfs(w, prev2, p2, logical + (key, ), sub[key]) if sub[key] else False
+            created = len(w.ops) > n_ops
+            if PERSIST_ACTS[ai - 1][2] != "none" and not created:
+                # the producer raised instead of creating an operator: later steps would refer to an operator that
+                # does not exist; the rest of this branch is not executable (counted by the caller)
+                d2 = False
+            else:
+                d2 = dfs(w, prev2, p2, logical + (key, ), sub[key]) if sub[key] else False
             if dirty or d2:
                 dirty_any = True
-                w2, prevr, _ = fresh(logical, False)
+                w2, prevr, _, _ = fresh(logical, False)
                 w.owned, w.ops, w.names = w2.owned, w2.ops, w2.names
             else:
                 del w.ops[n_ops:]
         return dirty_any
 
-    w, prev, p = fresh(prefix, True)
+    w, prev, p, alive = fresh(prefix, True)
+    if not alive:
+        return out
     trie = {}
     for s in suffixes:
         d = trie
@@ -1246,6 +1326,10 @@ def persist_part(tier, wd, viol, cov):
     seqs = [tuple(tuple(a) for a in ln["h"]) for ln in mcr.json_lines()]
     n_tlc = len(seqs)
     rnd = random_sequences(24 if tier == "quick" else 240, 10 if tier == "quick" else 14, common.seed() + 18)
+    from .. import fastimport
+    fastimport.install()
+    from .. import build  # noqa: F401
+    persist_pin()          # before the worker pool forks
     nodes = persist_execute(list(seqs), split=1 if depth == 2 else 2)
     nodes_r = persist_execute(rnd, split=1)
     for p, v in nodes_r.items():
@@ -1288,43 +1372,55 @@ def persist_part(tier, wd, viol, cov):
         viol.append(Violation(PROP, clause, f"{action} on {kind}: {_path_str(p)}", attrs,
                               f"{detail} [{cnt} recorded event(s) rejected by Trace_Persist]",
                               replay={"kind": "persist", "path": [list(k) for k in p if k[0] != 0]}))
-    # ---- negative controls
+    # ---- negative controls: five corrupted copies of a small recording, validated as one forest
     small_nodes = {p: v for p, v in nodes.items() if len(p) <= 1 and all(k[0] != 0 for k in p)}
     srecs, sorder = persist_records(small_nodes)
-    neg = 0
     i = next(k for k, r in enumerate(srecs) if r["p"] != 0)
-    for field in ("ow", "d", "a", "l"):
+    forest, expect = [], []
+
+    def add_tree(tree, node, flag):
+        off = len(forest)
+        for r in tree:
+            r = json.loads(json.dumps(r))
+            if r["p"] != 0:
+                r["p"] += off
+            r["fc"] += off
+            forest.append(r)
+        expect.append((off + node + 1, flag))
+
+    for field, flag in (("ow", "arr"), ("d", "den"), ("a", "ann"), ("l", "lea")):
         mut = json.loads(json.dumps(srecs))
         if field == "ow":
             mut[i]["ow"] = 999999
         else:
             mut[i]["ops"][0][field] = 999999
-        _, nb = persist_validate(wd, mut, tag="neg_" + field, workers=1)
-        v = nb.get(i + 1)
-        want = {"ow": "arr", "d": "den", "a": "ann", "l": "lea"}[field]
-        if v is not None and not v[want]:
-            neg += 1
-    # repeated call with a different result
-    mut = json.loads(json.dumps(srecs))
-    first = mut[i]
-    extra_node = dict(first, p=i + 1, fc=1, nc=0, res=999999)
+        add_tree(mut, i, flag)
+    mut = json.loads(json.dumps(srecs))          # a repeated call with a different result
+    extra_node = dict(mut[i], p=i + 1, fc=1, nc=0, res=999999)
     mut[i]["fc"], mut[i]["nc"] = len(mut) + 1, 1
     mut.append(extra_node)
-    _, nb = persist_validate(wd, mut, tag="neg_rep", workers=1)
-    if nb.get(len(mut)) is not None and not nb[len(mut)]["rep"]:
-        neg += 1
+    add_tree(mut, len(mut) - 1, "rep")
+    _, nb = persist_validate(wd, forest, tag="neg", workers=1)
+    neg = sum(1 for node, flag in expect if nb.get(node) is not None and not nb[node][flag])
     if neg != 5:
         common.machinery_failure(PROP, f"Trace_Persist accepted a corrupted recording ({neg} of 5 controls rejected)")
     n_paths = len(seqs) + len(rnd)
+    logical = {tuple(k for k in p if k[0] != 0) for p in nodes}
+    n_full = sum(1 for q in list(seqs) + list(rnd) if tuple(q) in logical)
     kinds_seen = sorted({t[3] for v in nodes.values() for t in v[3]})
+    n_exc = {}
+    for p, v in nodes.items():
+        if p and p[-1][0] != 0 and str(v[1]).startswith(("exc:", "notop:")):
+            n_exc[_act_name(p[-1])] = n_exc.get(_act_name(p[-1]), 0) + 1
     cov.update({
         "persist_states": mcr.distinct + tres.distinct, "persist_transitions": mcr.states + tres.states,
         "persist_sequences_from_tlc": n_tlc, "persist_sequence_length": depth,
         "persist_longest_sequences_replayed_1_in": sample_mod,
+        "persist_sequences_executed_to_the_end": n_full,
         "persist_random_sequences": len(rnd), "persist_random_length": len(rnd[0]) if rnd else 0,
         "persist_recorded_events": len(recs), "persist_events_rejected": len(bad),
         "persist_operator_kinds_seen": kinds_seen, "persist_alphabet": [a for a, _, _ in PERSIST_ACTS],
-        "persist_negative_controls_rejected": neg,
+        "persist_negative_controls_rejected": neg, "persist_calls_whose_result_is_an_exception": n_exc,
     })
     samples = [_path_str(p) for p in sorted(nodes, key=lambda q: (-len(q), q))[:: max(1, len(nodes) // 3)][:3]]
     return mcr, tres, n_paths, samples
